@@ -107,18 +107,30 @@ RoundTrip(s, out) == Norm(Unescape(out)) = Norm(s)
         LF.  4.4: the block's lines are indented by four or more columns (tab stop 4) or blank; a
         non-blank line indented less ends the block.  t is the rendered slice followed by the rest of
         its template line; the first line of t continues a line the template already indented.  The
-        string left the block iff some later line of t is neither blank nor indented. ---- *)
-LineStart(t, i) == i > 1 /\ (t[i - 1] = LF \/ (t[i - 1] = CR /\ t[i] # LF))
+        string left the block iff some later line of t is neither blank nor indented.
+
+        Two line-ending conventions are judged, and the value must stay inside under both: cr = TRUE
+        is CommonMark 2.1 as written; cr = FALSE splits lines at LF only (CR LF still ends a line, a
+        lone CR is an ordinary character) - which is what goldmark 1.7, the converter the property is
+        quantified with and cmd/scriggo uses, does (observed: "P a\rb Q" stays one code line, while
+        "P a\n\r\tb Q" ends the block before b).  Reading chosen: "a CommonMark converter" is any of
+        them, so an output that is confined under one convention only is not confined. ---- *)
+LineStartC(t, i, cr) == i > 1 /\ (t[i - 1] = LF \/ (cr /\ t[i - 1] = CR /\ t[i] # LF))
+LineStart(t, i) == LineStartC(t, i, TRUE)
 RECURSIVE IndentFrom(_, _, _)       \* <<columns of indentation, index of the first byte that is not space/tab>>
 IndentFrom(t, i, col) ==
   IF i > Len(t) THEN <<col, i>>
   ELSE IF t[i] = SP THEN IndentFrom(t, i + 1, col + 1)
   ELSE IF t[i] = TAB THEN IndentFrom(t, i + 1, col + 4 - (col % 4))
   ELSE <<col, i>>
-BlankAt(t, j) == j > Len(t) \/ IsEol(t[j])
-LineInBlock(t, i) == LET d == IndentFrom(t, i, 0) IN BlankAt(t, d[2]) \/ d[1] >= 4
-Confined(t) == \A i \in 2..Len(t) : LineStart(t, i) => LineInBlock(t, i)
-LeaksOnlyAfterCR(t) == \A i \in 2..Len(t) : LineStart(t, i) /\ ~LineInBlock(t, i) => t[i - 1] = CR
+BlankAtC(t, j, cr) == j > Len(t) \/ t[j] = LF \/ (t[j] = CR /\ (cr \/ (j < Len(t) /\ t[j + 1] = LF)))
+BlankAt(t, j) == BlankAtC(t, j, TRUE)
+LineInBlockC(t, i, cr) == LET d == IndentFrom(t, i, 0) IN BlankAtC(t, d[2], cr) \/ d[1] >= 4
+ConfinedC(t, cr) == \A i \in 2..Len(t) : LineStartC(t, i, cr) => LineInBlockC(t, i, cr)
+Confined(t) == ConfinedC(t, TRUE) /\ ConfinedC(t, FALSE)
+\* shapes of a leak (signatures, and the extent statements of MC_MdEscape)
+LeaksOnlyAfterCR(t) == \A i \in 2..Len(t) : LineStartC(t, i, TRUE) /\ ~LineInBlockC(t, i, TRUE) => t[i - 1] = CR
+LeaksOnlyAtCR(t) == \A i \in 2..Len(t) : LineStartC(t, i, FALSE) /\ ~LineInBlockC(t, i, FALSE) => t[i] = CR
 
 (* ---- (c) escape completeness: a sufficient condition for inertness in paragraph text.
         Role of every byte: 1 an escaping backslash, 2 the punctuation it escapes (a literal),
@@ -132,9 +144,12 @@ LeaksOnlyAfterCR(t) == \A i \in 2..Len(t) : LineStart(t, i) /\ ~LineInBlock(t, i
           hardbreak no literal backslash at the end of a line or of the slice; no two spaces before a
                     line ending
           autolink  no @, no :/ and no "www."  (extended autolinks of GFM converters)
-          indent    no non-blank line of the slice (the first one only if the slice starts a line)
-                    indented by 4 or more columns  (indented code; deliberately ignores that such a
-                    line inside a paragraph is only a continuation - sufficient, not necessary)
+          indent    no line of the slice (the first one only if the slice starts a line) indented by
+                    4 or more columns, unless an LF or CR LF follows the indentation  (indented code;
+                    deliberately ignores that such a line inside a paragraph is only a continuation,
+                    counts a lone CR after the indentation as content - it is for a converter that
+                    splits lines at LF only - and counts the end of the slice as content, because
+                    template text follows it: sufficient, not necessary)
           marker    after <= 3 columns of indentation no such line starts with a raw > - + = or
                     with digits followed by a raw . or )   (ATX heading, block quote, bullet/ordered
                     list, thematic break, setext underline; a table delimiter row needs a raw - or |)
@@ -149,8 +164,8 @@ InlineDanger == {96, 42, 95, 91, LT, 126, 124, HASH}
 MarkerStart == {GT, 45, 43, 61}
 LineHeadOk(t, R, i) ==        \* i is the first byte of a line of the slice
   LET d == IndentFrom(t, i, 0) j == d[2] IN
-  IF BlankAt(t, j) THEN ""
-  ELSE IF d[1] >= 4 THEN "indent"
+  IF d[1] >= 4 /\ ~(j <= Len(t) /\ BlankAtC(t, j, FALSE)) THEN "indent"
+  ELSE IF BlankAt(t, j) THEN ""
   ELSE IF R[j] = 0 /\ t[j] \in MarkerStart THEN "marker"
   ELSE IF IsDigit(t[j]) THEN LET e == RunEnd(t, j, 1) IN
                              IF e <= Len(t) /\ R[e] = 0 /\ t[e] \in {46, 41} THEN "marker" ELSE ""
@@ -169,6 +184,9 @@ CFailR(t, R, ls) ==
        IF bad = {} THEN ""
        ELSE LineHeadOk(t, R, CHOOSE i \in bad : \A k \in bad : i <= k)
 CFail(t, ls) == CFailR(t, RolesFrom(t, 1), ls)
+\* some line of the slice fails clause "indent" (whatever else fails) - used for signatures only
+IndentFails(t, ls) == LET n == Len(t) R == RolesFrom(t, 1) IN
+                      \E i \in (IF ls /\ n > 0 THEN {1} ELSE {}) \cup {k \in 2..n : LineStart(t, k)} : LineHeadOk(t, R, i) = "indent"
 Complete(t, ls) == CFail(t, ls) = ""
 
 (* ---- placements: what the fixed template text around the shown value is, as document structure.
@@ -214,11 +232,32 @@ GmClean(pl, s, html) ==
   LET f == Frame(pl) IN
   /\ ForeignTags(html) = f.tags
   /\ Norm(HtmlTextFrom(html, 1)) = Norm(f.pre \o s \o f.post)
+\* code placements (audit diagnostic only): the converter kept the whole template line, up to " Q",
+\* inside one <pre><code> element
+TPre == <<112,114,101>>  TCode == <<99,111,100,101>>
+GmCodeInside(html) == /\ ForeignTags(html) = <<TPre, TCode, Close(TCode), Close(TPre)>>
+                      /\ Contains(html, CodeRest \o <<LF, LT, 47>> \o TCode)
 \* the first element the template did not make (for signatures)
 FirstForeign(pl, html) ==
   LET ft == ForeignTags(html) want == Frame(pl).tags
       ix == {k \in 1..Len(ft) : k > Len(want) \/ ft[k] # want[k]} IN
   IF ix = {} THEN <<>> ELSE ft[CHOOSE k \in ix : \A m \in ix : k <= m]
+
+\* a readable name for a tag (signatures); "other" for anything not listed
+TagName(tg) ==
+  CASE tg = <<>> -> ""
+    [] tg = <<112,114,101>> -> "pre"          [] tg = <<99,111,100,101>> -> "code"
+    [] tg = <<101,109>> -> "em"               [] tg = <<115,116,114,111,110,103>> -> "strong"
+    [] tg = <<97>> -> "a"                     [] tg = <<105,109,103>> -> "img"
+    [] tg = <<98,114>> -> "br"                [] tg = <<104,114>> -> "hr"
+    [] tg = TUl -> "ul"                       [] tg = <<111,108>> -> "ol"
+    [] tg = TLi -> "li"                       [] tg = TBq -> "blockquote"
+    [] tg = TH1 -> "h1"                       [] tg = <<104,50>> -> "h2"
+    [] tg = <<100,101,108>> -> "del"          [] tg = <<116,97,98,108,101>> -> "table"
+    [] tg = <<105,110,112,117,116>> -> "input" [] tg = <<115,117,112>> -> "sup"
+    [] tg = Close(TUl) -> "/ul"               [] tg = Close(TLi) -> "/li"
+    [] tg = Close(TH1) -> "/h1"               [] tg = Close(TBq) -> "/blockquote"
+    [] OTHER -> "other"
 
 (* =========================== IMPLEMENTATION-SHAPED ============================================ *)
 (* markdownEscape(w, s, allowHTML = false): loop variables i, last (0-based, as in the code) and the
